@@ -92,7 +92,7 @@ def apply_norm(chain, s):
     return s
 
 
-def check_c16(ctx, led):
+def check_c16_structural(ctx, led):
     f = ctx.repo.function("interactive", "ask_interactively")
     module = f.module
     where = module.where(f.node)
@@ -532,3 +532,368 @@ def check_c16(ctx, led):
             "the result for version %s must be %r + '/'.join(answers); found prefix %r" % (v, PREFIX_OF_VERSION[v], got),
         )
     return n_vals
+
+
+# ---------------------------------------------------------------------------------------------
+# semantic analysis of the builder: abstract interpretation with symbolic answers
+#
+# ask_interactively() is interpreted for every (version, all_metrics) with each read of the user's
+# answer replaced by a fresh symbol that ranges over a finite set of representative answers.  The
+# retry loop is summarised by one symbolic iteration (interp_stmt.s_While): paths that ask again
+# must leave the state unchanged, the break paths define which answers are accepted and what is
+# appended.  The returned string is then a concatenation of constants and per-answer tables, which
+# is compared with the specification: prefix, metrics asked and their order, the accepted answers
+# of each metric (case-insensitive legal values, empty = Not Defined where legal), the canonical
+# spelling appended.  The decision does not depend on the idiom the code uses for the legality test.
+
+VERSION_ARGS = [2, 3, 3.0, 3.1, 4, 4.0]
+PREFIX_FOR = {2: "", 3: "CVSS:3.0/", 3.0: "CVSS:3.0/", 3.1: "CVSS:3.1/", 4: "CVSS:4.0/", 4.0: "CVSS:4.0/"}
+
+
+def representative_answers(ctx, vnum):
+    legal = ctx.legal(vnum)
+    toks = set()
+    for vals in legal.values():
+        toks |= set(vals)
+    out = []
+    for t in sorted(toks):
+        for a in (t, t.lower(), t.upper(), t.swapcase(), t.capitalize(), " " + t, t + " ", "\t" + t.lower() + " "):
+            out.append(a)
+        out.append(t + t)
+        out.append(t + ":")
+        if len(t) > 1:
+            out.append(t[:-1])
+            out.append(t[0] + " " + t[1:])
+    out += ["", " ", "\t", "?", "ZZ", "N/A", "AV:N", "(N)", "0", "1", "none", "NONE", "not defined", "Not Defined", "NOT_DEFINED", "ND", "nd", "X", "x", "-", "/", ":"]
+    seen = []
+    for a in out:
+        if a not in seen:
+            seen.append(a)
+    return tuple(seen)
+
+
+def expected_answer(legal_vals, nd, a):
+    """('accept', canonical) | ('reject', None) | ('either', canonical or None) for answer a."""
+    def match(x):
+        m = [v for v in legal_vals if v.upper() == x.upper()]
+        return m[0] if m else None
+
+    if a == "":
+        return ("accept", nd) if nd in legal_vals else ("reject", None)
+    if a != a.strip():
+        s = a.strip()
+        if s == "":
+            return ("either", nd if nd in legal_vals else None)
+        return ("either", match(s))
+    m = match(a)
+    return ("accept", m) if m is not None else ("reject", None)
+
+
+def flatten_string(t):
+    """Parts of a string term: Const pieces and Fin pieces; join/cat flattened."""
+    from .terms import App, Const, Fin
+
+    if isinstance(t, (Const, Fin)):
+        return [t]
+    if isinstance(t, App) and t.op == "cat":
+        out = []
+        for a in t.args:
+            out.extend(flatten_string(a))
+        return out
+    if isinstance(t, App) and t.op == "join":
+        sep = t.args[0]
+        out = []
+        for i, it in enumerate(t.args[1:]):
+            if not (isinstance(it, App) and it.op == "item"):
+                raise AnalysisError("C16.semantic", "join over a non-item", None)
+            g, v = it.args
+            if not (isinstance(g, Const) and g.v is True):
+                raise AnalysisError("C16.semantic", "conditionally present field in the result", None)
+            if i:
+                out.extend(flatten_string(sep))
+            out.extend(flatten_string(v))
+        return out
+    raise AnalysisError("C16.semantic", "result piece %r is not a constant or a table over an answer" % (t,), None)
+
+
+def _lcp(strs):
+    if not strs:
+        return ""
+    a, b = min(strs), max(strs)
+    n = 0
+    while n < len(a) and n < len(b) and a[n] == b[n]:
+        n += 1
+    return a[:n]
+
+
+def canonical_pieces(pieces):
+    """Canonical form of a concatenation of constants ("c", text) and per-answer tables
+    ("f", slot, {answer: text}), each table over its own answer: constants are maximal, a table's
+    texts share no common prefix and no common suffix.  Two concatenations denote the same function
+    of the answers iff their canonical forms are equal."""
+    out = []
+    for pc in pieces:
+        if pc[0] == "c":
+            if pc[1] == "":
+                continue
+            if out and out[-1][0] == "c":
+                out[-1] = ("c", out[-1][1] + pc[1])
+            else:
+                out.append(pc)
+            continue
+        _, slot, tab = pc
+        vals = list(tab.values())
+        pre = _lcp(vals)
+        rest = dict((k, v[len(pre) :]) for k, v in tab.items())
+        suf = _lcp([v[::-1] for v in rest.values()])[::-1]
+        core = dict((k, v[: len(v) - len(suf)] if suf else v) for k, v in rest.items())
+        if pre:
+            if out and out[-1][0] == "c":
+                out[-1] = ("c", out[-1][1] + pre)
+            else:
+                out.append(("c", pre))
+        out.append(("f", slot, core))
+        if suf:
+            out.append(("c", suf))
+    # merge constants once more (a suffix followed by a constant)
+    merged = []
+    for pc in out:
+        if pc[0] == "c" and merged and merged[-1][0] == "c":
+            merged[-1] = ("c", merged[-1][1] + pc[1])
+        else:
+            merged.append(pc)
+    return merged
+
+
+def string_pieces(st, t):
+    """("c", text) / ("f", slot, table) pieces of a string term in state st."""
+    from .terms import Const, Fin
+
+    fo = st.folder()
+    out = []
+    for p in flatten_string(t):
+        if isinstance(p, Fin):
+            p = fo.restrict(p)
+        if isinstance(p, Const):
+            if not isinstance(p.v, str):
+                raise AnalysisError("C16.semantic", "non-string piece %r in the result" % (p.v,), None)
+            out.append(("c", p.v))
+        else:
+            if len(p.slots) != 1:
+                raise AnalysisError("C16.semantic", "a result piece depends on %d answers at once" % len(p.slots), None)
+            tab = dict((k[0], v) for k, v in p.table.items())
+            if out and out[-1][0] == "f" and out[-1][1] == p.slots[0]:
+                prev = out[-1][2]
+                out[-1] = ("f", p.slots[0], dict((k, prev[k] + tab[k]) for k in tab if k in prev))
+            else:
+                out.append(("f", p.slots[0], tab))
+    return out
+
+
+def check_builder_semantics(ctx, led, rule="C16.semantic"):
+    from .interp import Dead
+    from .interp_stmt import Evaluator
+    from .terms import Const, Fin, Space
+
+    f = ctx.repo.function("interactive", "ask_interactively")
+    module = f.module
+    where = module.where(f.node)
+    n_ans = 0
+    for version in VERSION_ARGS + [5.0]:
+        vnum = NUM_OF_VERSION.get(version, {3: 3, 4: 4}.get(version))
+        for all_metrics in (False, True):
+            label = "ask_interactively(version=%r, all_metrics=%s)" % (version, all_metrics)
+            ck = "interactive.ask_interactively::%s" % label
+            space = Space()
+            ev = Evaluator(ctx, space)
+            ev.retry_loops = True
+            ev.keep_pieces = True
+            from .interp import Builtin
+
+            ev.global_overrides = {("interactive", "string_input"): Builtin("input")}
+            domain = representative_answers(ctx, vnum) if vnum else ("",)
+            counter = [0]
+
+            probes = [0]
+
+            def hook(st, node, mod, probe=False, counter=counter, space=space, domain=domain, probes=probes):
+                if probe:
+                    slot = "probe:%03d" % probes[0]
+                    probes[0] += 1
+                    space.add(slot, domain)
+                    st.dom[slot] = domain
+                    return Fin((slot,), dict(((a,), a) for a in domain))
+                slot = "ans:%03d" % counter[0]
+                counter[0] += 1
+                space.add(slot, domain)
+                st.dom[slot] = domain
+                return Fin((slot,), dict(((a,), a) for a in domain))
+
+            ev.input_hook = hook
+            st = ev.new_state()
+            from fractions import Fraction
+
+            from .consteval import Flt
+
+            varg = Const(version) if isinstance(version, int) else Const(Flt(Fraction(str(version)), str(version)))
+            try:
+                val = ev.inline(st, f, None, [varg, Const(all_metrics), Const(True)], {}, f.node, module)
+            except Dead:
+                val = None
+            evs = list(ev.events)
+            if version == 5.0:
+                led.check(
+                    val is None and any(e.kind == "raise" for e in evs),
+                    rule + ".unknown",
+                    ck,
+                    where,
+                    "an unsupported version must be refused, not answered from some version's tables",
+                )
+                continue
+            if val is None:
+                led.violation(rule + ".total", ck, where, "the builder raises on every path for a supported version")
+                continue
+            for e in evs:
+                if e.kind in ("hazard", "may_raise", "raise", "none_arith"):
+                    led.violation(
+                        rule + ".total",
+                        "interactive.ask_interactively::%s" % short(_stmt_of(e)),
+                        e.where(),
+                        "%s can raise %s for some answer sequence (%s)" % (label, e.data.get("exc"), e.data.get("what")),
+                    )
+                if e.kind == "retry_state_change":
+                    led.violation(
+                        rule + ".retry",
+                        "interactive.ask_interactively::retry loop",
+                        e.where(),
+                        "%s: %s, so a rejected answer influences the result" % (label, e.data.get("what")),
+                    )
+                if e.kind == "retry_never_exits":
+                    led.violation(rule + ".retry", "interactive.ask_interactively::retry loop", e.where(), "%s: no answer is ever accepted" % label)
+            legal = ctx.legal(vnum)
+            spec = ctx.vspec(vnum)
+            nd = spec["nd"]
+            asked = list(spec["order"]) if all_metrics else list(spec["mandatory"])
+            try:
+                pieces = string_pieces(st, val)
+            except AnalysisError as e:
+                led.violation(rule + ".result", ck, where, "the returned value is not the concatenation of a prefix and one field per answer: %s" % e.message)
+                continue
+            fpieces = [pc for pc in pieces if pc[0] == "f"]
+            slots_in_order = [pc[1] for pc in fpieces]
+            # which metric each field belongs to: read off the string for one accepted answer each
+            sample = ""
+            for pc in pieces:
+                if pc[0] == "c":
+                    sample += pc[1]
+                elif pc[2]:
+                    sample += pc[2][sorted(pc[2])[0]]
+            body = sample[len(PREFIX_FOR[version]) :] if sample.startswith(PREFIX_FOR[version]) else None
+            order_found = [fld.split(":")[0] for fld in body.split("/")] if body else []
+            led.check(
+                body is not None,
+                rule + ".prefix",
+                ck,
+                where,
+                "%s must return a string that starts with %r; it returns e.g. %r" % (label, PREFIX_FOR[version], sample[:40]),
+            )
+            if body is None:
+                continue
+            good = len(fpieces) == len(asked) == counter[0] and sorted(order_found) == sorted(asked) and len(set(slots_in_order)) == len(slots_in_order)
+            led.check(
+                good,
+                rule + ".asked",
+                ck,
+                where,
+                "%d metric(s) must be asked once each (%s); the builder reads %d answer(s) and returns the fields %s"
+                % (len(asked), ",".join(asked), counter[0], ",".join(order_found)[:120]),
+            )
+            if not good:
+                continue
+            asked = order_found
+            # expected concatenation, built from the specification
+            expected = []
+            bad = None
+            for i, (k, (_, slot, tab)) in enumerate(zip(asked, fpieces)):
+                expected.append(("c", (PREFIX_FOR[version] if i == 0 else "/") + k + ":"))
+                etab = {}
+                for a in domain:
+                    n_ans += 1
+                    kind, canon = expected_answer(legal[k], nd, a)
+                    accepted = a in tab
+                    if kind == "accept":
+                        etab[a] = canon
+                        if not accepted and bad is None:
+                            bad = "the legal answer %r for %s is never accepted (the question is repeated for ever)" % (a, k)
+                    elif kind == "reject":
+                        if accepted and bad is None:
+                            bad = "the answer %r is accepted for %s, but it is not a legal value of %s" % (a, k, k)
+                    elif accepted:
+                        if canon is None:
+                            if bad is None:
+                                bad = "the answer %r is accepted for %s, but it is not a legal value of %s" % (a, k, k)
+                        else:
+                            etab[a] = canon
+                expected.append(("f", slot, etab))
+            if bad is None:
+                got_c, exp_c = canonical_pieces(pieces), canonical_pieces(expected)
+                if got_c != exp_c:
+                    for x, y in zip(got_c, exp_c):
+                        if x != y:
+                            if x[0] == "f" and y[0] == "f":
+                                diff = [(a, x[2].get(a), y[2].get(a)) for a in sorted(set(x[2]) | set(y[2])) if x[2].get(a) != y[2].get(a)][:2]
+                                k = asked[slots_in_order.index(x[1])] if x[1] in slots_in_order else "?"
+                                bad = "for %s the answer %r contributes %r where the specification's spelling is %r" % ((k,) + diff[0]) if diff else "fields differ"
+                            else:
+                                bad = "the text %r appears where %r is expected" % (x[1] if x[0] == "c" else "<answer>", y[1] if y[0] == "c" else "<answer>")
+                            break
+                    else:
+                        bad = "the result has %d pieces where %d are expected" % (len(got_c), len(exp_c))
+            if bad is None:
+                led.ok(rule, ck, where, "%d metrics x %d representative answers: prefix, order, accepted answers and appended spellings as specified" % (len(asked), len(domain)))
+            else:
+                led.violation(rule, ck, where, "%s: %s" % (label, bad))
+    return n_ans
+
+
+def _stmt_of(e):
+    st = e.node
+    mod = e.module
+    while st is not None and not isinstance(st, ast.stmt) and mod.parent(st) is not None:
+        st = mod.parent(st)
+    return st if st is not None else e.node
+
+
+def check_c16(ctx, led):
+    """C16: the semantic analysis (symbolic answers) decides; the structural idiom rules are kept as
+    an informational cross-check, and decide only when the builder cannot be interpreted."""
+    from .rules_parse import InfoLedger
+
+    try:
+        n = check_builder_semantics(ctx, led)
+        semantic_ok = True
+    except AnalysisError as e:
+        if e.rule == "C16.anchor":
+            raise
+        led.info(
+            "C16.semantic",
+            "interactive.ask_interactively",
+            "cvss/interactive.py",
+            "the builder could not be interpreted symbolically (%s): the structural idiom rules decide instead" % e.message,
+        )
+        semantic_ok = False
+        n = 0
+    if semantic_ok:
+        class _Structural(InfoLedger):
+            # the call-graph rule is not idiom-dependent: it keeps deciding
+            def violation(self_, rule, *a, **k):
+                if rule == "C16.ask.recursion":
+                    return led.violation(rule, *a, **k)
+                return InfoLedger.violation(self_, rule, *a, **k)
+
+        try:
+            check_c16_structural(ctx, _Structural(led))
+        except AnalysisError as e:
+            led.info("C16.structural", "interactive.ask_interactively", "cvss/interactive.py", "idiom rules not applicable: %s" % e.message)
+        return n
+    return check_c16_structural(ctx, led)
